@@ -150,25 +150,45 @@ pub fn exec(inst: &Inst, b: &Built, entries: &[pmtiles2::Entry], sched: Sched, f
         }
         Scen::Open | Scen::OpenPartial | Scen::OpenAndGet => {
             let s = mk_reader(b.bytes.clone());
-            let ids: Vec<u64> = b.expected.keys().step_by(b.expected.len() / 3 + 1).copied().collect();
+            // lookups: a few ids, each twice, plus the neighbour inside the same run / the same content
+            let mut ids: Vec<u64> = Vec::new();
+            for id in b.expected.keys().step_by(b.expected.len() / 3 + 1) {
+                ids.extend([*id, *id, id + 1, *id]);
+            }
             let lo = b.steer.get(b.steer.len() / 3).copied().unwrap_or(0);
             let partial = inst.scen == Scen::OpenPartial;
             let get = inst.scen == Scen::OpenAndGet;
             let s2 = s.clone();
+            // Under fail-stop every lookup issued after the first failing one needs the (still failing) stream
+            // again, so it has to be an error too: a lookup that "succeeds" after a failed one reports bytes that
+            // were never transferred. The sequence counts as Err only if it is Err from the first failure on.
+            fn seq(results: impl Iterator<Item = std::io::Result<Option<Vec<u8>>>>) -> std::io::Result<()> {
+                let mut first_err: Option<std::io::Error> = None;
+                for r in results {
+                    match r {
+                        Err(e) => {
+                            if first_err.is_none() {
+                                first_err = Some(e);
+                            }
+                        }
+                        Ok(Some(_)) if first_err.is_some() => return Ok(()), // success reported after the fault
+                        Ok(_) => {}
+                    }
+                }
+                first_err.map_or(Ok(()), Err)
+            }
             let o = catch(move || -> std::io::Result<()> {
                 if a {
                     let mut pm = if partial { block_on(PMTiles::from_async_reader_partially(s2, lo..))? } else { block_on(PMTiles::from_async_reader(s2))? };
                     if get {
-                        for id in ids {
-                            block_on(pm.get_tile_by_id_async(id))?;
-                        }
+                        let rs: Vec<_> = ids.iter().map(|id| block_on(pm.get_tile_by_id_async(*id))).collect();
+                        seq(rs.into_iter())?;
                     }
                 } else {
                     let mut pm = if partial { PMTiles::from_reader_partially(s2, lo..)? } else { PMTiles::from_reader(s2)? };
                     if get {
-                        for id in ids {
-                            pm.get_tile_by_id(id)?;
-                        }
+                        let rs: Vec<_> = ids.iter().map(|id| pm.get_tile_by_id(*id)).collect();
+                        seq(rs.into_iter())?;
                     }
                 }
                 Ok(())
